@@ -90,6 +90,9 @@ class Outcome:
         sig = '%s:%s' % (clause, sigclass)
         for k in self.known:
             if k['signature'] == sig:
+                # a finding may be pinned to the exact failing histories (fingerprints computed by the driver)
+                if 'fingerprints' in k and not (isinstance(replay_obj, dict) and replay_obj.get('fp') in k['fingerprints']):
+                    continue
                 self.known_hits.setdefault(sig, [k, 0])
                 self.known_hits[sig][1] += 1
                 return False
